@@ -62,11 +62,12 @@ func runC05(p *Program, r *Report) {
 	for _, m := range []struct {
 		r string
 		n int
-	}{{"C05.R1", 4}, {"C05.R2", 4}, {"C05.R3", 2}, {"C05.R4", 4}, {"C05.R5", 1}, {"C05.R7", 7}, {"C05.R8", 1}} {
+	}{{"C05.R1", 4}, {"C05.R2", 4}, {"C05.R3", 2}, {"C05.R4", 4}, {"C05.R5", 1}, {"C05.R7", 7}, {"C05.R8", 1}, {"C05.R9", 1}} {
 		r.Min(m.r, m.n)
 	}
 	checkSpeculativeMerge(p, r, "C05.R7")
 	checkEscapedMarkOnlyForAnalysed(p, r, "C05.R8")
+	checkNoRecover(p, r, "C05.R9")
 	// ---- R1 / R5: package-level escapeTemplate ------------------------------------
 	et := p.Func("template", "escapeTemplate")
 	if et == nil {
